@@ -83,3 +83,15 @@ Theorem C05_matching_step_rotation_invariant : forall tol2 M zero a b p, orthogo
   match_point tol2 (aff M zero) (lin M a) (lin M b) (aff M p) = match_point tol2 zero a b p.
 Proof. exact match_point_orthogonal. Qed.
 Print Assumptions C05_matching_step_rotation_invariant.
+
+Import ListNotations.
+(* ---- non-vacuity: the hypotheses above are met by concrete inputs (computed inside Coq) ---- *)
+Open Scope Q_scope.
+Definition nv_pts : list peak :=
+  [ {| k_w := 1; k_p := (10, 10) |}; {| k_w := 2; k_p := (30, 10) |}; {| k_w := 1; k_p := (10, 32) |};
+    {| k_w := 3#2; k_p := (30, 32) |}; {| k_w := 1#100; k_p := (50, 10) |}; {| k_w := 1; k_p := (20, 21) |} ].
+(* a cloud on which fastmatch is Valid, with four matched peaks (the weak and the half-cell peak are left out) *)
+Example nv_fastmatch_valid :
+  match fastmatch (9#1) (1#10) 3 (10, 10) (20, 0) (0, 22) nv_pts with Valid m _ _ _ => count_some m = 4%Z | Invalid _ => False end.
+Proof. vm_compute. reflexivity. Qed.
+
